@@ -1,6 +1,6 @@
 (* Screen.v — executable model of src/screen.rs (impl Screen + impl ParserListener for Screen),
    function by function, loop by loop, over the sparse buffer. Numbers are unbounded N; the places
-   where the Rust code could panic are listed in Safety.v. *)
+   where the Rust code could panic on checked arithmetic are listed in Safe.v. *)
 From Coq Require Import NArith List Bool.
 From MT Require Import Lib Types Charsets Tables.
 Import ListNotations.
